@@ -550,3 +550,161 @@ func reaches(a, b *ssa.BasicBlock) bool {
 	}
 	return false
 }
+
+// c06ReaderCounts: R06.19. A reader that reports how many bytes it consumed (ReadFrom(ch) (int, error), loop-free) is
+// summed up by its caller against a declared length (ENVCHANGE members, field data inside rows). On every success
+// path the count it returns equals the widths it read, as linear forms over the lengths it took from the wire: a
+// length byte that is read but not counted (or counted only when the value is non-empty) makes the caller's loop read
+// one more element out of the next package.
+func c06ReaderCounts(r *core.Run, ef *errFlow, rule string) {
+	p := r.Prog
+	sb := newShapeBuilder(p, ef)
+	bc := p.Named("tds", "BytesChannel")
+	n := 0
+	for _, fn := range p.ModuleFuncs() {
+		if fn.Blocks == nil || fn.Pkg == nil || fn.Pkg.Pkg.Path() != core.Module+"/tds" || p.FuncInOverlay(fn) || fn.Parent() != nil {
+			continue
+		}
+		sig := fn.Signature
+		if sig.Recv() == nil || sig.Results().Len() != 2 || !types.Identical(sig.Results().At(0).Type(), types.Typ[types.Int]) || !core.IsErrorType(sig.Results().At(1).Type()) {
+			continue
+		}
+		hasCh := false
+		for _, prm := range fn.Params {
+			if types.Identical(prm.Type(), bc) {
+				hasCh = true
+			}
+		}
+		if !hasCh || !strings.HasPrefix(strings.ToLower(fn.Name()), "readfrom") {
+			continue
+		}
+		// loop-free and made of wire reads only (no nested reader whose count would have to be trusted)
+		simple := true
+		for _, b := range fn.Blocks {
+			if h, _ := core.InnermostLoop(b); h != nil {
+				simple = false
+			}
+			for _, in := range b.Instrs {
+				if c, ok := in.(*ssa.Call); ok {
+					if _, isL := sb.letterOf(c); isL {
+						continue
+					}
+					if g := core.StaticCallee(c); g != nil && ef.W[g] {
+						simple = false
+					}
+					if c.Call.IsInvoke() && c.Call.Method.Name() == "ReadFrom" {
+						simple = false
+					}
+				}
+			}
+		}
+		if !simple {
+			continue
+		}
+		var lin func(v ssa.Value, pa core.Path, d int) plin
+		lin = func(v ssa.Value, pa core.Path, d int) plin {
+			out := newPlin()
+			if d > 30 {
+				return plin{why: "expression too deep"}
+			}
+			if c, ok := core.ConstInt64(v); ok {
+				out.c = c
+				return out
+			}
+			switch x := v.(type) {
+			case *ssa.Convert:
+				return lin(x.X, pa, d+1)
+			case *ssa.ChangeType:
+				return lin(x.X, pa, d+1)
+			case *ssa.BinOp:
+				if x.Op == token.ADD {
+					return lin(x.X, pa, d+1).add(lin(x.Y, pa, d+1))
+				}
+			case *ssa.Phi:
+				for i := len(pa.Blocks) - 1; i > 0; i-- {
+					if pa.Blocks[i] != x.Block() {
+						continue
+					}
+					for j, pr := range x.Block().Preds {
+						if pr == pa.Blocks[i-1] {
+							return lin(x.Edges[j], pa, d+1)
+						}
+					}
+				}
+				return plin{why: "φ not on the path"}
+			case *ssa.Extract:
+				if c, ok := x.Tuple.(*ssa.Call); ok && x.Index == 0 {
+					if _, isL := sb.letterOf(c); isL {
+						out.terms["val@"+p.Pos(c.Pos())] = 1
+						return out
+					}
+				}
+			case *ssa.Call:
+				if arg, isLen := isLenCall(x); isLen {
+					// len of what a variable-length read returned = the length it was asked for
+					if ex, ok := core.Strip(arg).(*ssa.Extract); ok && ex.Index == 0 {
+						if c, ok := ex.Tuple.(*ssa.Call); ok {
+							if l, isL := sb.letterOf(c); isL && l == "S" {
+								return lin(c.Call.Args[len(c.Call.Args)-1], pa, d+1)
+							}
+						}
+					}
+				}
+			}
+			return plin{why: "term " + core.Expr(v)}
+		}
+		checked := false
+		bad := ""
+		var badPos = fn.Pos()
+		core.EnumPaths(fn.Blocks[0], func(b *ssa.BasicBlock) bool { return false }, nil, 5000, func(pa core.Path, ended bool) {
+			last := pa.Blocks[len(pa.Blocks)-1]
+			ret, isRet := last.Instrs[len(last.Instrs)-1].(*ssa.Return)
+			if !isRet || !successPath(pa) {
+				return
+			}
+			rv := core.RetVals(ret)
+			if !core.IsNil(rv[1]) {
+				return
+			}
+			consumed := newPlin()
+			for _, b := range pa.Blocks {
+				for _, in := range b.Instrs {
+					c, ok := in.(*ssa.Call)
+					if !ok {
+						continue
+					}
+					l, isL := sb.letterOf(c)
+					if !isL || readLetter[calleeName(c)] == "" {
+						continue
+					}
+					if w := widthOfLetter(l); w > 0 {
+						k := newPlin()
+						k.c = w
+						consumed = consumed.add(k)
+					} else if l == "S" {
+						consumed = consumed.add(lin(c.Call.Args[len(c.Call.Args)-1], pa, 0))
+					} else {
+						consumed = plin{why: "read of unknown width"}
+					}
+				}
+			}
+			reported := lin(rv[0], pa, 0)
+			if !consumed.ok || !reported.ok {
+				return // not expressible: this rule does not decide the path
+			}
+			checked = true
+			if !consumed.equal(reported) {
+				bad = "on a success path the reader consumes " + consumed.String() + " bytes but reports " + reported.String() + ": the caller, which adds the reports up against the declared length of the package, is out of step with the stream and reads one more (or one fewer) element"
+				badPos = ret.Pos()
+			}
+		})
+		if !checked {
+			continue
+		}
+		n++
+		r.Check(bad == "", rule, core.FuncName(fn)+": reported count = bytes consumed", badPos, "equal on every success path", bad)
+	}
+	if n == 0 {
+		r.Unknown(rule, "counting readers", token.NoPos, "no loop-free reader with a byte count found")
+	}
+}
